@@ -150,6 +150,10 @@ func build(src scen.Source, keys []refsrv.RSAKeyJSON, p Plan) (*scen.Scenario, e
 		s := salts(len(p.Rotations) + 7)
 		steps = append(steps, scen.Step{Op: "store-fault", N: 1}, scen.Step{Op: "new-session", Salt: s}, scen.Step{Op: "store-fault"},
 			scen.Step{Op: "bad-salt", Salt: s, Push: &scen.PushSpec{Kind: "last-ack", Arg: 4 << 32}}, scen.Step{Op: "session-snapshot", Salt: s}, scen.Step{Op: "probe"})
+		// and the same while a salt learnt from a rejection is saved: the rejected request is still re-sent and answered
+		s2 := s + 1
+		steps = append(steps, scen.Step{Op: "store-fault", N: 1}, scen.Step{Op: "rotate", Salt: s2}, scen.Step{Op: "probe"}, scen.Step{Op: "store-fault"},
+			scen.Step{Op: "bad-salt", Salt: s2, Push: &scen.PushSpec{Kind: "last-ack", Arg: 4 << 32}}, scen.Step{Op: "session-snapshot", Salt: s2}, scen.Step{Op: "probe"})
 	}
 	if p.AckRejected {
 		last := salts(len(p.Rotations))
